@@ -107,7 +107,7 @@ static void run_type(Reporter& R, const Args& A, const char* tname, uint64_t tin
   R.count("spellings", static_cast<long long>(accepted.size()));
   R.crumb(std::string("C08|type=") + tname + "|parse");
   std::vector<std::string> acc(accepted.begin(), accepted.end());
-  const long long per_type = A.n("strings", A.thorough() ? 60000 : 600);
+  const long long per_type = A.n("strings", A.thorough() ? 60000 : 3000);
   // the accepted spellings themselves
   for (auto& s : acc) probe<E>(R, tname, accepted, table, s, "accepted");
   probe<E>(R, tname, accepted, table, "", "empty");
